@@ -22,7 +22,10 @@ class Rnd:
         self.r = _stdrandom.Random(seed)
         self.log = []
         self.forced = collections.deque()   # values to return instead of drawing
-        self.choices_seen = []              # the option lists of the choice() calls (exploration of the real code)
+        self.choices_seen = []              # the option lists of the choice() calls
+        self.draws_seen = []                # (kind, outcomes) of every enumerable draw (exploration of the real code)
+        self.explore = False
+        self.random_options = [0.0, 0.999]  # outcomes of random() that matter to a probability threshold strictly between them
 
     def _take(self, kind, draw, ok=lambda x: True):
         # a forced entry ("K", kind, value) only serves a draw of that kind; a bare value serves the next draw
@@ -38,19 +41,28 @@ class Rnd:
         self.log.append([kind, v if isinstance(v, (int, float, str, bool)) or v is None else repr(v)])
         return v
 
+    # every draw records its kind and its possible outcomes (draws_seen); in exploration mode (explore=True) an unforced draw
+    # returns the first outcome, so that the harness can enumerate the others by re-execution
     def choice(self, seq):
         seq = list(seq)
         self.choices_seen.append(seq)
-        return self._take("choice", lambda: self.r.choice(seq), lambda v: v in seq)
+        self.draws_seen.append(("choice", seq))
+        return self._take("choice", lambda: seq[0] if self.explore else self.r.choice(seq), lambda v: v in seq)
 
     def random(self):
-        return self._take("random", self.r.random)
+        self.draws_seen.append(("random", list(self.random_options)))
+        return self._take("random", lambda: self.random_options[0] if self.explore else self.r.random())
 
     def uniform(self, a, b):
         return self._take("uniform", lambda: self.r.uniform(a, b))
 
     def randint(self, a, b):
         return self._take("randint", lambda: self.r.randint(a, b))
+
+    def np_randint(self, n):
+        """numpy.random.randint(n): 0 <= result < n"""
+        self.draws_seen.append(("np_randint", list(range(n))))
+        return self._take("np_randint", lambda: 0 if self.explore else self.r.randrange(n), lambda v: 0 <= v < n)
 
     def sample(self, pop, k):
         return self.r.sample(list(pop), k)
@@ -161,6 +173,8 @@ class World:
         _stdrandom.seed(seed)
         np.random.seed(seed % (2 ** 32))
         self._patch_random()
+        import pydcop.infrastructure.computations as _cm, numpy.random as _npr
+        _cm.random = _npr                   # a binding may install an adapter on self.rnd afterwards (use_rnd_for_numpy)
         gm = importlib.import_module("pydcop.computations_graph." + (graph or self.mod.GRAPH_TYPE))
         self.cg = gm.build_computation_graph(dcop)
         self.algo_def = AlgorithmDef.build_with_default_param(
@@ -180,6 +194,18 @@ class World:
                 cdef = from_repr(json.loads(json.dumps(simple_repr(cdef))))
             c = build_computation(cdef)
             self._install(c)
+
+    def use_rnd_for_numpy(self):
+        """VariableComputation.random_value_selection draws with numpy.random.randint: route it through self.rnd too"""
+        import pydcop.infrastructure.computations as _cm
+        rnd = self.rnd
+
+        class _Np:
+            @staticmethod
+            def randint(n):
+                return rnd.np_randint(n)
+        _cm.random = _Np
+        return self
 
     # ---- plumbing ----------------------------------------------------
     def _patch_random(self):
